@@ -51,6 +51,24 @@ def finish_native(h):
     return d, None
 
 
+def lean_status(fname, force=False):
+    import hashlib
+    src = os.path.join(HERE, 'lemmas', fname)
+    stamp = os.path.join(HERE, 'lemmas', '.' + fname + '.ok')
+    h = hashlib.sha256(open(src, 'rb').read()).hexdigest()
+    if not force and os.path.exists(stamp) and open(stamp).read().strip() == h:
+        return True, 'lean-4.33 (compiled by setup, source hash matches)', 0.0
+    t0 = time.time()
+    try:
+        p = subprocess.run(['lean', src], capture_output=True, text=True, timeout=1500)
+        ok = p.returncode == 0 and 'error' not in (p.stdout + p.stderr).lower() and 'sorry' not in (p.stdout + p.stderr).lower()
+    except (subprocess.TimeoutExpired, OSError):
+        ok = False
+    if ok:
+        open(stamp, 'w').write(h)
+    return ok, 'lean-4.33', time.time() - t0
+
+
 def main():
     ap = argparse.ArgumentParser()
     ap.add_argument('prop')
@@ -108,6 +126,12 @@ def main():
         except Exception as e:      # noqa
             import traceback
             problems.append('verifier crashed: ' + traceback.format_exc()[-1500:])
+    # Lean lemmas under the contracts (facts about reals / finite sets that SMT cannot prove): compiled by setup.sh,
+    # re-checked here when the stamp is missing or stale, always re-checked in the thorough tier
+    for (lf, thm) in cfg.get('lean', []):
+        ok, how, secs = lean_status(lf, force=(tier == 'thorough'))
+        results.append(dict(name='lean.%s.%s' % (lf, thm), func='lean:' + lf, kind='lean', line=0, note='theorem %s in /verif/lemmas/%s' % (thm, lf), path=[],
+                            verdict='proved' if ok else 'unknown', backend=how, time=secs))
     # canaries / counts
     canary_by_func = {}
     names = {}
